@@ -31,6 +31,7 @@ type HarnessSpec struct {
 	StepBudget      int                       `json:"step_budget,omitempty"`
 	DepthBudget     int                       `json:"depth_budget,omitempty"`
 	LockMonitor     bool                      `json:"lock_monitor,omitempty"`
+	FullSchemaLib   bool                      `json:"full_schema_lib,omitempty"`
 	MaxPaths        int                       `json:"max_paths,omitempty"`
 	MaxPathsThorough int                      `json:"max_paths_thorough,omitempty"`
 	Instances       []map[string]int          `json:"instances,omitempty"`          // extra bound sets, each run separately (quick and thorough)
@@ -189,7 +190,7 @@ func cmdCheck(args []string) {
 			}
 			cfg := sym.Config{Pkg: h.Pkg, Harness: h.Fn, Bounds: bounds, Stubs: stubs, Tabulate: tabulate,
 				MapOrderAny: h.MapOrder, BudgetViolation: h.BudgetViolation, StepBudget: h.StepBudget,
-				DepthBudget: h.DepthBudget, LockMonitor: h.LockMonitor, Workers: *workers, MaxPaths: h.MaxPaths,
+				DepthBudget: h.DepthBudget, LockMonitor: h.LockMonitor, FullSchemaLib: h.FullSchemaLib, Workers: *workers, MaxPaths: h.MaxPaths,
 				SolverTimeoutMs: h.TimeoutMs}
 			if *tier == "thorough" {
 				if h.MaxPathsThorough > 0 {
@@ -263,6 +264,7 @@ func cmdCheck(args []string) {
 	knownPrinted := map[string]bool{}
 	unconfirmed := 0
 	tracesValidated := 0
+	sampleDiverged := 0
 	os.MkdirAll(filepath.Join(verifDir, "replays", id), 0o755)
 	for _, key := range gorder {
 		g := groups[key]
@@ -330,9 +332,14 @@ func cmdCheck(args []string) {
 				path := writeReplayFile(id, v)
 				out, _ := rp.replayRaw(v, path)
 				os.Remove(path)
+				stubbed := harnessHasEnvStubs(spec, rep.Harness)
 				switch {
 				case strings.Contains(out, "VERIF-REPLAY-PASS") && strings.Contains(out, "REACHED "+s.Reach+";"):
 					tracesValidated++
+				case stubbed:
+					// the native run uses the real environment (schema library, file system) where the symbolic
+					// run used a stub: the two may legitimately take different paths
+					sampleDiverged++
 				case strings.Contains(out, "VERIF-REPLAY-ASSUMPTION-VIOLATED"):
 					inconclusive[fmt.Sprintf("%s: sample model violates an assumption natively (encoding mismatch?): %s", rep.Harness, s.Reach)]++
 				default:
@@ -344,6 +351,7 @@ func cmdCheck(args []string) {
 			}
 		}
 	}
+	_ = sampleDiverged
 
 	// ---- evidence ----
 	ev := buildEvidence(id, *tier, seed, spec, reports, inconclusive, len(newViolations), tracesValidated, unconfirmed, loadTime, time.Since(start), knownPrinted)
@@ -429,6 +437,24 @@ func replayRepeat(spec CheckSpec, v sym.Violation) int {
 		}
 	}
 	return 1
+}
+
+// harnessHasEnvStubs: the harness replaces part of the environment (anything but the location summary).
+func harnessHasEnvStubs(spec CheckSpec, fn string) bool {
+	for _, h := range spec.Harnesses {
+		if h.Fn != fn {
+			continue
+		}
+		for _, s := range h.StubSets {
+			if s != "location" {
+				return true
+			}
+		}
+		if len(h.Stubs) > 0 {
+			return true
+		}
+	}
+	return false
 }
 
 func noReplayKind(spec CheckSpec, v sym.Violation) bool {
